@@ -51,7 +51,7 @@ def orderable(ids):
     try:
         sorted(ids)
         return True
-    except TypeError:
+    except Exception:  # TypeError, or numpy's ValueError when a numpy int meets a tuple
         return False
 
 
